@@ -1,5 +1,6 @@
 import SSV.Proofs.PacketRelay
 import SSV.Proofs.PacketSSDown
+import SSV.Proofs.PacketLimit
 /-
 C05 — UDP packets survive pack/unpack unchanged and never exceed the path MTU.
 Property theorems only; helper lemmas are in SSV/Proofs/Packet*.lean. The model (SSV/Model/Packet.lean,
@@ -213,6 +214,35 @@ theorem direct_target_only_domain_panics (name : Bytes) (port : Nat) (b : Bytes)
 /-- the abstract cryptography hypothesis `Crypto.Laws` is satisfiable (the driver's instance) -/
 theorem crypto_laws_satisfiable : ∃ c : Crypto, c.Laws := ⟨toyCrypto, toyCrypto_laws⟩
 
+/-! ## the limit handed to the packer is the one of the current client address -/
+
+/-- relay_limit_current: in both downlink loops of the session relay (`relayNatConnToServerConnGeneric`,
+`…Sendmmsg`; their refresh blocks are `SSV.Gen.C05.sessionRefresh{Generic,Mmsg}`, translated from the source),
+after the session was opened from any address and its client address info changed any number of times to any
+addresses (IPv4, IPv4-mapped IPv6, IPv6, in any order), the address packets are sent to is the latest one and the
+`maxClientPacketSize` passed to `PackInPlace` is `MaxPacketSizeForAddr(mtu, that address)`.
+(The NAT relays key their entries by the client address and compute the limit once from it; the call-site
+inventory in Gen pins that.) -/
+theorem relay_limit_current (mtu : Int) (a0 : AddrPort) (events : List AddrPort) (prog : List LimStmt)
+    (hprog : prog = sessionRefreshGeneric ∨ prog = sessionRefreshMmsg) :
+    (limRun mtu prog a0 events).dest = (events.getLast?).getD a0 ∧
+    (limRun mtu prog a0 events).limit = maxPacketSize mtu (limRun mtu prog a0 events).dest.ip := by
+  have h : LimProgCurrent mtu prog := by
+    rcases hprog with rfl | rfl
+    · exact sessionRefreshGeneric_current mtu
+    · exact sessionRefreshMmsg_current mtu
+  rw [limRun_current mtu prog h a0 events]
+  exact ⟨rfl, rfl⟩
+
+/-- why the refresh must not be guarded by `Is4()`: with `if caip.addrPort.Addr().Is4() != clientAddrPort.Addr().Is4()`
+around the recomputation, a client that moves from ::ffff:127.0.0.1 (dual-stack socket: `Is4()` false, IPv4 limit)
+to ::1 keeps the IPv4 limit 1472 although 1452 is the limit of its address. -/
+theorem relay_limit_is4_guard_is_stale :
+    let prog : List LimStmt := [⟨true, .setLimitFromNew⟩, ⟨false, .setInfoPtr⟩, ⟨false, .setAddrFromNew⟩,
+      ⟨false, .setPktinfoFromNew⟩, ⟨false, .setDestFromCur⟩]
+    let st := limRun 1500 prog ⟨.v6 (v4in6Prefix ++ [127, 0, 0, 1]), 4000⟩ [⟨.v6 [0, 0, 0, 0, 0, 0, 0, 0, 0, 0, 0, 0, 0, 0, 0, 1], 4000⟩]
+    st.limit = 1472 ∧ maxPacketSize 1500 st.dest.ip = 1452 := by decide
+
 /-- the arithmetic core, front: needed front of the packer − actual header of the unpacker ≤ max(0, packerFront − unpackerFront) -/
 theorem relay_front_arith (s c : Proto) (a : Addr) (ha : a.wf) (hdr : Int) (hhdr : clientNeed s a ≤ hdr) :
     clientNeed c a - hdr ≤ relayHeadroomFront (clientPackerHeadroom c).front (serverUnpackerHeadroom s).front :=
@@ -257,4 +287,6 @@ end SSV.C05
 #print axioms SSV.C05.relay_safe_down
 #print axioms SSV.C05.direct_target_only_domain_panics
 #print axioms SSV.C05.crypto_laws_satisfiable
+#print axioms SSV.C05.relay_limit_current
+#print axioms SSV.C05.relay_limit_is4_guard_is_stale
 #print axioms SSV.C05.relay_front_arith
